@@ -54,7 +54,7 @@ func main() {
 	opt := &option.DatabaseOption{Intervals: option.Intervals{{Interval: timeutil.Interval(10_000), Retention: timeutil.Interval(3000 * 24 * 3600 * 1000)}}, AutoCreateNS: true}
 	b, err := vbox.Open(f.Scratch+"/eng", "db", opt, []models.ShardID{1, 2})
 	if err != nil {
-		vevid.Fatal("open: %v", err)
+		vevid.OpFailed("open: %v", err)
 	}
 	defer b.Close()
 	day := time.Now().UTC().Truncate(24*time.Hour).UnixMilli() - 24*3600*1000
@@ -72,17 +72,17 @@ func main() {
 		pts := []vbox.Point{{Metric: metric, Tags: map[string]string{"host": "a"}, Field: "f1", Type: "sum", Value: 1, Timestamp: base + 5000}}
 		pts2 := []vbox.Point{{Metric: metric, Tags: map[string]string{"host": "b"}, Field: "f1", Type: "sum", Value: 2, Timestamp: base + 15000}}
 		if err := b.Write(1, pts); err != nil {
-			vevid.Fatal("write: %v", err)
+			vevid.OpFailed("write: %v", err)
 		}
 		if err := b.Write(2, pts2); err != nil {
-			vevid.Fatal("write: %v", err)
+			vevid.OpFailed("write: %v", err)
 		}
 		if data != "memory" {
 			if err := b.Flush(1, tr); err != nil {
-				vevid.Fatal("flush: %v", err)
+				vevid.OpFailed("flush: %v", err)
 			}
 			if err := b.Flush(2, tr); err != nil {
-				vevid.Fatal("flush: %v", err)
+				vevid.OpFailed("flush: %v", err)
 			}
 		}
 		if data == "mixed" {
@@ -125,7 +125,7 @@ func runLeafCase(rep *vevid.Report, b *vbox.Box, c lcase, tr timeutil.TimeRange,
 	}
 	req, err := b.LeafRequest(c.SQL, tr, node, shards, fmt.Sprintf("req-%d", idx))
 	if err != nil {
-		vevid.Fatal("request %q: %v", c.SQL, err)
+		vevid.OpFailed("request %q: %v", c.SQL, err)
 	}
 	procNode := node
 	switch c.Corrupt {
